@@ -36,7 +36,8 @@ def deep_copy_rule(facts, rep):
             rep.fn(f)
             # StringCopy dominated by (type != kStringConst || copyString); pointer share only in the else
             def gen_edge(b, cond, sense):
-                c = strip_expect(cond)
+                from ..core import cond_sense
+                c, sense = cond_sense(cond, sense)
                 if c is not None and c.get('k') == 'bin' and c['op'] in ('!=', '==') and any(x.get('k') == 'call' and x.get('cname') == 'GetType' for x in walk(c)):
                     en = f.facts.enum_values()
                     if cval(c['r']) == en.get('kStringConst') or cval(c['l']) == en.get('kStringConst'):
@@ -637,8 +638,12 @@ def clause_h(facts, rep):
 
         def gen_stmt(st):
             for e in walk(st):
-                if e.get('k') == 'call' and e.get('cname') == 'Free' and any(y.get('k') == 'call' and y.get('cname') in ('getMap', 'getMapUnsfe') for y in walk(e)):
-                    return ['map-freed']
+                if e.get('k') == 'call' and e.get('cname') == 'Free' and e.get('args'):
+                    from . import c12 as _c12
+                    _c12._FACTS[0] = facts
+                    a_ = e['args'][0]
+                    if _c12.is_map_expr(a_) or any(y.get('k') == 'ref' and y.get('id') in defs and _c12.is_map_expr(defs[y['id']]) for y in walk(a_)):
+                        return ['map-freed']      # the map read through its accessor, directly or via a local that names it
             return []
         M = Must(f, gen_edge=gen_edge, gen_stmt=gen_stmt)
         for bid, i, e, what, target in resets:
